@@ -352,6 +352,8 @@ class _Run:
             return
         exp = m.expected_resolution(self.root, u, j, r, k)
         if got == exp:
+            if u["method"] == "loopoutput" and k >= 1:
+                self._check_incomplete_aggregate(lp, dr, u, j, r, what)
             return
         short = lambda s: s.replace(self.root, "<inst>")
         if u["method"] in ("loopref", "loopoutput"):
@@ -372,6 +374,33 @@ class _Run:
             sig = "outside-reference-wrong"
         self.fail(sig, "%s resolves to %s (iteration %s), expected %s" % (what, short(got), others.get(got, "?"),
                                                                          short(exp)))
+
+
+def _incomplete(self, lp, dr, u, j, r, what):
+    """:loopoutput lists *all* instances: while the output of one of them does not exist (the new iteration was just
+    instantiated, or a file went missing) the reference cannot be resolved - a shorter list is not an answer."""
+    from ..core import jhash
+    m, k = lp.m, lp.k
+    i = jhash([what.split(": ", 1)[-1], k]) % (k + 1)
+    path = m.payload_path(self.root, j, i, r, u["file"])
+    aside = path + ".aside"
+    if not os.path.isfile(path):
+        return
+    os.rename(path, aside)
+    try:
+        try:
+            got = dr.resolve(self.wg)
+        except Exception:
+            self.ctx.rec.label("loopoutput-with-missing-instance:refused")
+            return
+    finally:
+        os.rename(aside, path)
+    self.fail("loop-aggregate-lists-fewer-instances",
+              "%s: with the output of iteration %d missing (of 0..%d) the reference resolves to %r instead of being "
+              "refused" % (what, i, k, got.replace(self.root, "<inst>")))
+
+
+_Run._check_incomplete_aggregate = _incomplete
 
 
 def check_unroll(case, ctx: Ctx):
